@@ -622,3 +622,220 @@ def check_c09(pid, tier, build, props):
 
 
 REGISTRY["C09"] = check_c09
+
+
+# --------------------------------------------------------------------------- C11
+C11_SUPPORTED_COMPOUND = {"If": ("body", "orelse"), "While": ("body", "orelse"), "For": ("body", "orelse"),
+                          "FunctionDef": ("body",)}
+C11_LEAVES = ["Assign", "AugAssign", "Expr", "Return", "Pass", "Break", "Continue"]
+
+
+def c11_kinds():
+    import ast
+
+    out = []
+
+    def rec(c):
+        for s in c.__subclasses__():
+            out.append(s)
+            rec(s)
+
+    rec(ast.stmt)
+    return out
+
+
+def c11_tree(rng, depth, unsupported, place_bad):
+    """A statement tree; returns (kind, {field: [children]})."""
+    import ast
+
+    def stmts(d, n_min=1):
+        return [node(d) for _ in range(rng.randrange(n_min, 3))]
+
+    def node(d):
+        if place_bad[0] and rng.random() < 0.12:
+            place_bad[0] -= 1
+            k = rng.choice(unsupported)
+            cls = getattr(ast, k)
+            slots = {}
+            for f in cls._fields:
+                if f in ("body", "orelse", "finalbody") and d > 0 and rng.random() < 0.5:
+                    slots[f] = stmts(d - 1)
+            return (k, slots)
+        if d <= 0 or rng.random() < 0.45:
+            return (rng.choice(C11_LEAVES), {})
+        k = rng.choice(["If", "While", "For", "If", "While", "For", "FunctionDef"] if place_bad[1] else
+                       ["If", "While", "For"])
+        slots = {"body": stmts(d - 1)}
+        if k != "FunctionDef":
+            slots["orelse"] = stmts(d - 1, 0)
+        return (k, slots)
+
+    return node
+
+
+def c11_to_ast(t):
+    import ast
+
+    k, slots = t
+    sub = {f: [c11_to_ast(c) for c in l] for f, l in slots.items()}
+    name = lambda s, ctx=None: ast.Name(id=s, ctx=ctx or ast.Load())  # noqa: E731
+    if k == "FunctionDef":
+        return ast.FunctionDef(name="g", args=ast.arguments(posonlyargs=[], args=[], kwonlyargs=[], kw_defaults=[],
+                                                            defaults=[]),
+                               body=sub.get("body", []), decorator_list=[], lineno=1, col_offset=0)
+    if k == "Assign":
+        return ast.Assign(targets=[name("v", ast.Store())], value=ast.Constant(1), lineno=1, col_offset=0)
+    if k == "AugAssign":
+        return ast.AugAssign(target=name("v", ast.Store()), op=ast.Add(), value=ast.Constant(1), lineno=1, col_offset=0)
+    if k == "Expr":
+        return ast.Expr(value=name("e"), lineno=1, col_offset=0)
+    if k == "Return":
+        return ast.Return(value=name("r"), lineno=1, col_offset=0)
+    if k in ("Pass", "Break", "Continue"):
+        return getattr(ast, k)(lineno=1, col_offset=0)
+    if k == "If":
+        return ast.If(test=name("c"), body=sub.get("body", []), orelse=sub.get("orelse", []), lineno=1, col_offset=0)
+    if k == "While":
+        return ast.While(test=name("c"), body=sub.get("body", []), orelse=sub.get("orelse", []), lineno=1, col_offset=0)
+    if k == "For":
+        return ast.For(target=name("i", ast.Store()), iter=name("x"), body=sub.get("body", []),
+                       orelse=sub.get("orelse", []), lineno=1, col_offset=0)
+    n = getattr(ast, k)()
+    for f, l in sub.items():
+        setattr(n, f, l)
+    return n
+
+
+def c11_coq(t):
+    k, slots = t
+    return "Node %s %s" % (coqeval.coq_str(k), coqeval.coq_list(
+        "(%s, %s)" % (coqeval.coq_str(f), coqeval.coq_list(c11_coq(c) for c in l)) for f, l in slots.items()))
+
+
+def c11_run_impl(top):
+    from numba_scfg.core.datastructures.ast_transforms import AST2SCFGTransformer
+
+    try:
+        AST2SCFGTransformer([c11_to_ast(t) for t in top]).transform_to_ASTCFG()
+        return "SOk"
+    except NotImplementedError:
+        return "SNotImplemented"
+    except AssertionError:
+        return "SAssertion"
+    except Exception as e:
+        return "other:" + type(e).__name__
+
+
+def check_c11(pid, tier, build, props):
+    t = common.Timer()
+    common.import_repo()
+    rng = random.Random(common.seed())
+    problems = base_problems(build, props, pid)
+    kinds = [k.__name__ for k in c11_kinds()]
+    supported = set(C11_LEAVES) | set(C11_SUPPORTED_COMPOUND)
+    unsupported = [k for k in kinds if k not in supported]
+    cases = []
+    # every unsupported kind at every structural position
+    positions = {
+        "top-level": lambda b: [b, ("Return", {})],
+        "if-body": lambda b: [("If", {"body": [b], "orelse": []}), ("Return", {})],
+        "if-else": lambda b: [("If", {"body": [("Pass", {})], "orelse": [b]}), ("Return", {})],
+        "loop-body": lambda b: [("While", {"body": [b], "orelse": []}), ("Return", {})],
+        "loop-else": lambda b: [("For", {"body": [("Pass", {})], "orelse": [b]}), ("Return", {})],
+        "after-loop": lambda b: [("While", {"body": [("Pass", {})], "orelse": []}), b, ("Return", {})],
+        "nested-3": lambda b: [("For", {"body": [("If", {"body": [("While", {"body": [b], "orelse": []})],
+                                                         "orelse": []})], "orelse": []}), ("Return", {})],
+    }
+    for k in unsupported + ["FunctionDef"]:
+        for pname, mk in positions.items():
+            cases.append(("%s@%s" % (k, pname), [("FunctionDef", {"body": mk((k, {}))})]))
+    # inputs that are not a function definition
+    for k in ["Assign", "Expr", "If", "ClassDef", "AsyncFunctionDef", "Return"]:
+        inner = {"body": [("Pass", {})], "orelse": []} if k == "If" else {}
+        cases.append(("non-function:%s" % k, [(k, inner), ("FunctionDef", {"body": [("Return", {})]})]))
+    cases.append(("two-functions", [("FunctionDef", {"body": [("Return", {})]}), ("FunctionDef", {"body": [("Return", {})]})]))
+    # random trees, most of them with a few unsupported statements somewhere
+    for i in range(250 if tier == "quick" else 3000):
+        place_bad = [rng.choice([0, 0, 1, 2]), rng.random() < 0.2]
+        mk = c11_tree(rng, 3, unsupported, place_bad)
+        body = [mk(3) for _ in range(rng.randrange(1, 4))]
+        cases.append(("random", [("FunctionDef", {"body": body})]))
+    impl = [c11_run_impl(top) for _, top in cases]
+    violations = []
+    evaluated = mismatches = 0
+    dist = {}
+    for r in impl:
+        dist[r] = dist.get(r, 0) + 1
+    if build["ok"]:
+        lines = ["From Coq Require Import String List.", "Import ListNotations.",
+                 "From V Require Import Model.Front Gen.Dispatch.", "Local Open Scope string_scope.",
+                 "Definition st (top : list tree) : status := front_status dispatch dispatch_default visits stmt_kinds 12 top.",
+                 "Definition seq (a b : status) : bool := match a, b with SOk, SOk | SNotImplemented, SNotImplemented "
+                 "| SAssertion, SAssertion | SFuel, SFuel => true | _, _ => false end."]
+        shard = 100
+        for si in range(0, len(cases), shard):
+            items = []
+            for (label, top), r in zip(cases[si:si + shard], impl[si:si + shard]):
+                exp = r if r in ("SOk", "SNotImplemented", "SAssertion") else "SFuel"
+                items.append("seq (st %s) %s" % (coqeval.coq_list(c11_coq(x) for x in top), exp))
+            lines.append("Eval vm_compute in %s." % coqeval.coq_list(items))
+        rc, out, err = coqeval.run_coq("C11_corr", "\n".join(lines) + "\n")
+        if rc != 0:
+            problems.append("correspondence file did not compile: " + (out + err)[-400:])
+        else:
+            flat = [b for bl in coqeval.parse_bools(out) for b in bl]
+            evaluated = len(flat)
+            if len(flat) != len(cases):
+                problems.append("correspondence: %d answers for %d cases" % (len(flat), len(cases)))
+            for (label, top), r, okb in zip(cases, impl, flat):
+                if not okb:
+                    mismatches += 1
+                    if len(violations) < 5:
+                        violations.append({"case": label, "tree": repr(top)[:800],
+                                           "witness": {"reason": "front end outcome differs from the dispatcher model",
+                                                       "implementation": r}})
+    # the property itself on the implementation: an unsupported kind anywhere => NotImplementedError
+    for (label, top), r in zip(cases, impl):
+        def has_bad(t, first=True):
+            k, slots = t
+            if k not in supported:
+                return True
+            return any(has_bad(c, False) or (c[0] == "FunctionDef") for l in slots.values() for c in l)
+        bad = any(has_bad(x) for x in top) or len([x for x in top if x[0] == "FunctionDef"]) > 1
+        if top[0][0] == "FunctionDef" and bad and r != "SNotImplemented" and len(violations) < 8:
+            violations.append({"case": label, "tree": repr(top)[:800],
+                               "witness": {"reason": "unsupported statement not refused with NotImplementedError",
+                                           "implementation": r}})
+        if top[0][0] != "FunctionDef" and r == "SOk" and len(violations) < 8:
+            violations.append({"case": label, "tree": repr(top)[:800],
+                               "witness": {"reason": "input that is not a function definition was accepted"}})
+    nth = len(props["theorems"])
+    coverage = {
+        "obligations": nth + 1,
+        "discharged": (nth if props["ok"] else 0) + (1 if evaluated == len(cases) and not mismatches and not violations else 0),
+        "checker_cmd": "coqc Props/C11.v (Gen/Dispatch.v regenerated from ast_transforms.py and ast); coqc build/cases/C11_corr.v",
+        "trusted_base": TRUSTED + ["harness builds ast nodes for each statement class with dummy expression fields"],
+        "theorems": props["theorems"],
+        "evaluations": len(cases),
+        "distinct_nontrivial": len(set(repr(top) for _, top in cases if top[0][0] == "FunctionDef")),
+        "rule": "every statement class of the running interpreter outside the supported subset (%d classes), and a "
+                "nested FunctionDef, at 7 structural positions; non-function inputs; two functions; random trees of "
+                "depth <= 4 with 0-2 unsupported statements; distinct by tree" % len(unsupported),
+        "implementation_outcomes": dist, "unsupported_classes": unsupported,
+        "samples": [{"case": cases[3][0], "tree": repr(cases[3][1])}, {"case": cases[-1][0], "tree": repr(cases[-1][1])[:400]}],
+        "traces_validated_against_impl": evaluated,
+        "explanation": "Proved: over the translated dispatcher, every statement class of the interpreter outside the "
+                       "supported subset reaches the not-implemented arm (finite, vm_compute); handlers descend into "
+                       "every statement-list field; and (U, by induction over statement trees of any depth) if the "
+                       "front end accepts, no statement anywhere below the module body is of a refused class and the "
+                       "only function definition is the first top-level node. Tie: dispatcher chain, handler skeleton, "
+                       "codegen loop and the FunctionDef assertion are translated fail-closed; model outcome = "
+                       "implementation outcome on the listed trees. A non-function input is refused by an assertion "
+                       "(AssertionError), which the property accepts as refusal.",
+    }
+    return {"coverage": coverage, "violations": violations, "problems": problems, "level": "proof",
+            "wall_s": t.s(), "broken_name": "Props/C11.v (C11_every_other_kind_refused, C11_refused_at_any_depth) / "
+                                            "correspondence front end = dispatcher model"}
+
+
+REGISTRY["C11"] = check_c11
